@@ -23,6 +23,8 @@ type Client struct {
 	// Resp, when set, is the one Response object used for every Do (an application that keeps its
 	// request and response objects instead of acquiring them per call); nil = a pooled one per call.
 	Resp *protocol.Response
+	// SkipNext: the caller sets Response.SkipBody for the next Do (status and header fields only)
+	SkipNext bool
 }
 
 // New builds a HostClient for example.com:80 with the scripted dialer.
@@ -59,6 +61,10 @@ func (c *Client) Do(req *protocol.Request) (o RespObs) {
 			o.Panic = fmt.Sprintf("%v\n%s", r, debug.Stack())
 		}
 	}()
+	if c.SkipNext {
+		resp.SkipBody = true
+		defer func() { resp.SkipBody = false }()
+	}
 	err := c.HC.Do(context.Background(), req, resp)
 	if err != nil {
 		o.Err = err.Error()
